@@ -22,6 +22,8 @@ Oracle (statement):
     change state;
   * "... and are refused when the browser marks them as cross-site": non-safe method + Sec-Fetch-Site not in
     {same-origin, none} => handler not entered, state unchanged.
+Sequences: a case may be a list of steps (set web_password to token/plaintext/argon2 hash | request) run against the one
+live Application; a password is a valid credential iff it matches the configuration in force when the request arrives.
 Static files: `/static/(.*)`, `/(favicon\\.ico)`, `/(robots\\.txt)` are tornado StaticFileHandler rules added by
 `static_path`; they serve bundled assets without authentication by design.  The statement's "every endpoint" is read as
 "every row of `app.handlers` + the WebSocket"; for the static rows the check demands only: no state change, no marker in
@@ -67,14 +69,18 @@ class Check(PropertyCheck):
                   "Application by an in-process sweep of routes x methods x credential forms x Sec-Fetch-Site x XSRF states.")
     level_note = ("tornado's XSRF comparison, signed-cookie verification and URL routing are not modelled: they are abstracted "
                   "as xsrfOk / cookieValid / the route row and exercised for real in the sweep; WebAuth.is_valid_password is "
-                  "abstracted as valid/invalid (the sweep uses the generated plaintext token; the argon2 branch is not exercised). Static "
+                  "abstracted as valid/invalid; the sequence cases exercise all three of its branches (generated token, plaintext, argon2 hash with minimal cost parameters) including runtime changes of web_password. A session cookie issued before a password rotation stays valid in the code (it is signed with the Application's cookie_secret, not derived from the password); the statement's 'valid session cookie' does not demand revocation, so the oracle neither demands nor forbids it and the tie records the behaviour. Static "
                   "asset rules are outside the authenticated table by design (see module docstring). The cross-site refusal is "
                   "implemented by raising tornado.httpclient.HTTPError, which tornado turns into status 500, not 403 — a refusal, "
                   "recorded as outcome `cross-site`. 'GET/HEAD/OPTIONS handlers do not change state' is checked by the sweep only.")
     technique = "Lean 4 proof (decide +kernel over generated route table + case analysis) + exhaustive in-process request sweep"
     rule = ("core: every route x 8 methods x {no credential, valid bearer} x {Sec-Fetch-Site absent, cross-site} x {no XSRF, "
             "matching XSRF}; then (quick: random sample, thorough: full product) of route x method x 19 credential forms x 6 "
-            "Sec-Fetch-Site values x 6 XSRF states (+ websocket upgrade on/off). distinct = distinct tuple; non-trivial = all.")
+            "Sec-Fetch-Site values x 6 XSRF states (+ websocket upgrade on/off); plus SEQUENCES on the one live Application/"
+            "WebAuth: web_password switched between generated token / plaintext / argon2 hash (every ordered pair of 5 "
+            "configurations, and random 2-4 request sequences) with requests carrying the old password, the new one, none, or the "
+            "cookie obtained before the change - each request judged by the configuration in force at that time. distinct = "
+            "distinct tuple / sequence; non-trivial = all.")
     budget = {"quick": 12000, "thorough": 400000}
     time_budget = {"quick": 35, "thorough": 700}
     fingerprints = ["mitmproxy.tools.web.app:AuthRequestHandler.__init_subclass__", "mitmproxy.tools.web.app:AuthRequestHandler._require_auth",
@@ -245,9 +251,59 @@ class Check(PropertyCheck):
                         for sfs in SFS:
                             for x in XSRF:
                                 yield {"route": i, "method": m, "cred": cred, "sfs": sfs, "xsrf": x, "ws": 1}
+        for c in self._seq_core(): yield c
         while True:
-            yield {"route": rng.randrange(n), "method": rng.pick(ALLM), "cred": rng.pick(CREDS), "sfs": rng.pick(SFS),
-                   "xsrf": rng.pick(XSRF), "ws": int(rng.chance(0.7))}
+            if rng.chance(0.15):
+                yield self._gen_seq(rng)
+            else:
+                yield {"route": rng.randrange(n), "method": rng.pick(ALLM), "cred": rng.pick(CREDS), "sfs": rng.pick(SFS),
+                       "xsrf": rng.pick(XSRF), "ws": int(rng.chance(0.7))}
+
+    CFGS = [["tok", None], ["plain", "A"], ["plain", "B"], ["arg", "A"], ["arg", "B"]]
+
+    def _idx(self, name):
+        for i, r in enumerate(self._routes()):
+            if r["handler"] == name: return i
+        raise Skip()
+
+    def _rq(self, handler, method, cred, xsrf="ok-header", sfs="same-origin"):
+        return {"op": "req", "route": self._idx(handler), "method": method, "cred": cred, "sfs": sfs, "xsrf": xsrf, "ws": 1}
+
+    def _seq_core(self):
+        """password rotations, every ordered pair of configurations: log in under the first, then under the second present
+        the old password, the new one, none, and the cookie obtained before the rotation"""
+        for c1 in self.CFGS:
+            for c2 in self.CFGS:
+                for salt in ((0, 1) if (c1 == c2 and c1[0] == "arg") else (0,)):
+                    p1 = "tok1" if c1[0] == "tok" else c1[1]
+                    p2 = ("tok2" if c1[0] == "tok" else "tok1") if c2[0] == "tok" else c2[1]
+                    for chan in ("hb:", "qt:"):
+                        yield {"kind": "seq", "steps": [
+                            {"op": "set", "cfg": c1}, self._rq("Flows", "GET", chan + p1),
+                            {"op": "set", "cfg": c2, "salt": salt},
+                            self._rq("Flows", "GET", chan + p1), self._rq("ClearAll", "POST", chan + p1),
+                            self._rq("Flows", "GET", chan + p2), self._rq("Flows", "GET", "ck:1"), self._rq("Flows", "GET", "none")]}
+
+    def _gen_seq(self, rng):
+        steps, nreq, ntok = [], 0, 0
+        names = ["A", "B", "tok0"]
+        target = rng.randint(2, 4)
+        while nreq < target:
+            if rng.chance(0.45) or not steps:
+                cfg = rng.pick(self.CFGS)
+                if cfg[0] == "tok": ntok += 1; names.append("tok%d" % ntok)
+                steps.append({"op": "set", "cfg": cfg, "salt": rng.randint(0, 1)})
+            else:
+                prior = [i for i, st in enumerate(steps) if st["op"] == "req"]
+                cred = rng.weighted([(5, rng.pick(["hb:", "qt:"]) + rng.pick(names)), (1, "none"),
+                                     (2, ("ck:%d" % rng.pick(prior)) if prior else "none"),
+                                     (1, "hb:" + rng.pick(names) + "+qt:" + rng.pick(names))])
+                h, m = rng.pick([("Flows", "GET"), ("ClearAll", "POST"), ("IndexHandler", "GET"), ("ClientConnection", "GET"),
+                                 ("Options", "PUT"), ("FlowHandler", "DELETE"), ("Events", "GET")])
+                steps.append(self._rq(h, m, cred, xsrf=rng.pick(["ok-header", "ok-header", "none"]),
+                                      sfs=rng.pick(["same-origin", None, "cross-site"])))
+                nreq += 1
+        return {"kind": "seq", "steps": steps}
 
     # ------------------------------------------------------------------ implementation
     def _abstract(self, case):
@@ -267,7 +323,8 @@ class Check(PropertyCheck):
             else: raise Skip()
         return cookie, bearer, token
 
-    def _request(self, w, case):
+    def _request(self, w, case, resolve=None):
+        """`resolve`: for sequence steps — {"pw": name -> password text, "ck": step -> cookie text or None}"""
         r = self._routes()[case["route"]]
         if r["sample"] is None: raise Skip()
         pw = w.password
@@ -292,6 +349,11 @@ class Check(PropertyCheck):
             elif part == "c-garbage": cookies.append(name + "=y")
             elif part == "c-othername": cookies.append(name + "=" + w.signed_cookie("other", "y"))
             elif part == "c-valid": cookies.append(name + "=" + w.signed_cookie(name, "y"))
+            elif part.startswith("hb:"): headers.append(("Authorization", "Bearer " + resolve["pw"][part[3:]]))
+            elif part.startswith("qt:"): query.append("token=" + resolve["pw"][part[3:]])
+            elif part.startswith("ck:"):
+                ck = resolve["ck"].get(int(part[3:]))
+                if ck: cookies.append(ck)
         x = case["xsrf"]
         if x in ("cookie-only", "mismatch", "ok-header", "ok-arg"): cookies.append("_mitmproxy_xsrf=tok123")
         if x == "header-only": headers.append(("X-XSRFToken", "tok123"))
@@ -309,29 +371,115 @@ class Check(PropertyCheck):
         uri = r["sample"] + ("?" + "&".join(query) if query else "")
         return case["method"], uri, headers, body
 
-    def impl(self, case):
-        w = self.web()
-        method, uri, headers, body = self._request(w, case)
+    def _one(self, w, case, resolve=None):
+        method, uri, headers, body = self._request(w, case, resolve)
         del w.ran[:]
         conn, cls, handler = w.call(method, uri, headers, body)
         after = self._snap(w)
         changed = after != w.base
         status = conn.status
         rbody = conn.body
-        setc = any(k.lower() == "set-cookie" and v.startswith(w.auth_cookie_name() + "=") for k, v in (conn.headers.get_all() if conn.headers else []))
+        name = w.auth_cookie_name() + "="
+        setc = [v for k, v in (conn.headers.get_all() if conn.headers else []) if k.lower() == "set-cookie" and v.startswith(name)]
         kind = "empty" if not rbody else ("tornado-error" if rbody.startswith(b"<html><title>") else "other")
         obs = {"status": status, "body_kind": kind, "ran": list(w.ran), "changed": changed, "leak": MARK.encode() in rbody,
                "setcookie": bool(setc), "handler": cls.__name__}
         if changed:
             self._reset(w)
             w.base = self._snap(w)
-        return obs
+        return obs, (setc[0].split(";")[0] if setc else None)
+
+    def impl(self, case):
+        w = self.web()
+        if case.get("kind") != "seq":
+            return self._one(w, case)[0]
+        # ---- a sequence of option changes and requests against the one live Application / WebAuth
+        auth = w.master.addons.get("webauth")
+        pw = {"A": "pw-A", "B": "pw-B", "tok0": auth._password}
+        ntok = 0
+        cookies, out = {}, []
+        try:
+            for i, st in enumerate(case["steps"]):
+                if st["op"] == "set":
+                    kind, x = st["cfg"]
+                    if kind == "tok":
+                        w.master.options.update(web_password=self._hash("B", 9))     # make sure the option really changes
+                        w.master.options.update(web_password="")
+                        ntok += 1; pw["tok%d" % ntok] = auth._password
+                    elif kind == "plain": w.master.options.update(web_password=pw[x])
+                    else: w.master.options.update(web_password=self._hash(x, st.get("salt", 0)))
+                    w.pump(); w.pump()                  # the plaintext-password warning reaches the event store via the loop
+                    w.base = self._snap(w)              # option changes by the operator are not the request's doing
+                    continue
+                o, ck = self._one(w, st, {"pw": pw, "ck": cookies})
+                cookies[i] = ck
+                out.append(o)
+        finally:
+            w.master.options.update(web_password=self._hash("B", 9))
+            w.master.options.update(web_password="")
+            w.password = auth._password
+            w.pump(); w.pump()
+            self._reset(w); w.base = self._snap(w)
+        return {"seq": out}
+
+    _hashes = {}
+
+    def _hash(self, x, salt):
+        """argon2 hash of password X with minimal cost parameters (verification takes ~0.1 ms); `salt` distinguishes
+        several hashes of the same password"""
+        import argon2
+        key = (x, salt)
+        if key not in Check._hashes:
+            Check._hashes[key] = argon2.PasswordHasher(time_cost=1, memory_cost=8, parallelism=1).hash({"A": "pw-A", "B": "pw-B"}[x])
+        return Check._hashes[key]
+
+    def _seq_truth(self, case):
+        """per request step: (cookieValid, bearer, token) by the configuration IN FORCE AT THAT TIME, from the case alone.
+        A password is valid iff it is the configured one (plain / argon2 of that text / the token generated by the most
+        recent 'tok' setting).  A cookie taken from step k is a valid session cookie iff the specification says step k
+        issued one (gates open, method implemented, no cookie presented, valid password): session cookies are signed by
+        the Application's cookie_secret and the statement does not demand that a password change revokes them, so a
+        cookie issued before a rotation stays 'a valid session cookie' (neither demanded nor forbidden by the oracle;
+        the model tie pins the code's behaviour: it keeps working)."""
+        routes = self._routes()
+        cfg = ("tok", 0); ntok = 0
+        issued, res = {}, []
+        for i, st in enumerate(case["steps"]):
+            if st["op"] == "set":
+                kind, x = st["cfg"]
+                if kind == "tok": ntok += 1; cfg = ("tok", ntok)
+                else: cfg = (kind, x)
+                continue
+            def valid(name):
+                if cfg[0] == "tok": return name == "tok%d" % cfg[1]
+                return name == cfg[1]
+            cookie, bearer, token = 0, "absent", "absent"
+            for part in st["cred"].split("+"):
+                if part.startswith("hb:"): bearer = "valid" if valid(part[3:]) else "invalid"
+                elif part.startswith("qt:"): token = "valid" if valid(part[3:]) else "invalid"
+                elif part.startswith("ck:"): cookie = int(bool(issued.get(int(part[3:]))))
+            r = routes[st["route"]]
+            safe = st["method"] in ("GET", "HEAD", "OPTIONS")
+            gates = st["method"] in r["methods"] and (safe or (st["xsrf"] in ("ok-header", "ok-arg") and st["sfs"] in (None, "same-origin", "none")))
+            pw_ok = bearer == "valid" or (bearer == "absent" and token == "valid")
+            issued[i] = gates and not cookie and pw_ok and st["method"] in r["wrapped"]
+            res.append((cookie, bearer, token))
+        return res
 
     # ------------------------------------------------------------------ oracle
     def oracle(self, case, obs):
+        if case.get("kind") == "seq":
+            fails = []
+            reqs = [st for st in case["steps"] if st["op"] == "req"]
+            for k, (st, o, tr) in enumerate(zip(reqs, obs["seq"], self._seq_truth(case))):
+                fails += [f"{x} [request #{k + 1} of the sequence]" for x in self._oracle_one(st, o, tr)]
+            return fails
+        return self._oracle_one(case, obs, self._abstract(case))
+
+    def _oracle_one(self, case, obs, triple):
         fails = []
         r = self._routes()[case["route"]]
-        cookie, bearer, token = self._abstract(case)
+        cookie, bearer, token = triple
         nocred = not cookie and bearer != "valid" and token != "valid"
         safe = case["method"] in ("GET", "HEAD", "OPTIONS")
         xsrf_ok = case["xsrf"] in ("ok-header", "ok-arg")
@@ -363,17 +511,29 @@ class Check(PropertyCheck):
         return fails
 
     # ------------------------------------------------------------------ model tie
-    def model_lines(self, case):
-        cookie, bearer, token = self._abstract(case)
+    def _line(self, case, triple):
+        cookie, bearer, token = triple
         m = case["method"] if case["method"] in METHODS else "other"
         sfs = {None: "absent", "same-origin": "same-origin", "none": "none"}.get(case["sfs"], "other")
         x = int(case["xsrf"] in ("ok-header", "ok-arg"))
-        return [f"req {case['route']} {m} {cookie} {bearer} {token} {sfs} {x}"]
+        return f"req {case['route']} {m} {cookie} {bearer} {token} {sfs} {x}"
+
+    def model_lines(self, case):
+        if case.get("kind") == "seq":
+            reqs = [st for st in case["steps"] if st["op"] == "req"]
+            return [self._line(st, tr) for st, tr in zip(reqs, self._seq_truth(case))]
+        return [self._line(case, self._abstract(case))]
 
     def model_obs(self, case, replies):
-        return replies[0]
+        return list(replies) if case.get("kind") == "seq" else replies[0]
 
     def impl_view(self, case, obs):
+        if case.get("kind") == "seq":
+            reqs = [st for st in case["steps"] if st["op"] == "req"]
+            return [self._view_one(st, o) for st, o in zip(reqs, obs["seq"])]
+        return self._view_one(case, obs)
+
+    def _view_one(self, case, obs):
         r = self._routes()[case["route"]]
         if not r["app"]:
             # static rows: the model only says whether the (un-authenticated) handler is reached
@@ -396,6 +556,11 @@ class Check(PropertyCheck):
         return json.dumps(case, sort_keys=True)
 
     def branches(self, case, obs):
+        if case.get("kind") == "seq":
+            out = ["seq:len%d" % len(obs["seq"])]
+            out += ["seq-cfg:" + st["cfg"][0] for st in case["steps"] if st["op"] == "set"]
+            out += ["seq-status:%s" % o["status"] for o in obs["seq"]]
+            return out
         return ["status:%s" % obs["status"], "ran" if obs["ran"] else "not-ran", "cred:" + case["cred"].split("-")[0],
                 "changed" if obs["changed"] else "unchanged", "handler:" + obs["handler"]]
 
